@@ -6,7 +6,7 @@ MSG=$1; shift
 cd /repo
 for f in "$@"; do mkdir -p "$(dirname "$f")"; cp "/verif/hooks/$f" "$f"; head -1 "$f" | grep -q '^//go:build verif' || { echo "$f lacks build tag"; exit 1; }; git add "$f"; done
 export GOFLAGS=-mod=mod GOPROXY=off GOSUMDB=off GOTOOLCHAIN=local
-for f in "$@"; do go build -tags verif "./$(dirname "$f")/" || { echo "hook build failed: $f"; exit 1; }; go build "./$(dirname "$f")/" ; done
+for f in "$@"; do go build -tags verif "./$(dirname "$f")/" || { echo "hook build failed: $f"; exit 1; }; done
 git diff --cached --quiet && { echo "hooks already up to date"; exit 0; }
 git commit -qm "verif hooks: $MSG (build tag verif, add-only)"
 H=$(git rev-parse --short HEAD)
